@@ -235,7 +235,7 @@ func genSub(r *PRNG, c QCfg, prop string) Op {
 	o := Op{Kind: "sub", A: int64(r.Intn(8)), B: int64(r.Intn(8))}
 	o.C = []int64{0, 1, 1, 2, c.MaxRdy, c.MaxRdy}[r.Intn(6)]
 	var flags int64
-	flags |= int64(r.Pick(0, 1, 1, 2, 3))
+	flags |= int64(r.Pick(0, 0, 1, 1, 1, 2, 2, 1, 0, 3))
 	if prop == "C04" {
 		flags = 1 // unbuffered: receipt time = send time
 	}
@@ -407,10 +407,12 @@ func (w *qWorld) exec(op Op) {
 		w.opSub(op)
 	case "rdy":
 		if co := w.liveConsumer(op.A); co != nil {
-			if op.B < 0 || op.B > w.cfg.MaxRdy {
+			if co.Closing {
+				// RDY after CLS is ignored by design, whatever its value
+			} else if op.B < 0 || op.B > w.cfg.MaxRdy {
 				co.fatalSent = true
 				co.expectClose = true
-				co.expectCloseStep = w.rc.step
+				co.expectCloseStep = w.epoch
 				co.cl.Cmd(fmt.Sprintf("RDY %d", op.B), nil)
 				w.badRdy = append(w.badRdy, co)
 			} else if !co.Closing {
@@ -425,7 +427,7 @@ func (w *qWorld) exec(op Op) {
 			co.cl.Cmd("CLS", nil)
 			f, ok := co.cl.WaitFrame(30*time.Second, isNonMsg)
 			if ok && f.Type == frameResponse && string(f.Data) == "CLOSE_WAIT" {
-				co.Closing, co.ClsStep = true, w.rc.step
+				co.Closing, co.ClsStep = true, w.epoch
 				co.Rdy = 0
 			} else if !ok && !co.cl.Closed() {
 				w.violate("C03", "cls-unanswered", "%s: CLS got no CLOSE_WAIT", co.cl.Name)
@@ -439,6 +441,7 @@ func (w *qWorld) exec(op Op) {
 		time.Sleep(d)
 		w.lastAdvance = d
 		w.settle()
+		w.resolveUncertain()
 		if w.enforce["C13"] || w.enforce["C08"] {
 			w.checkStats()
 		}
@@ -474,6 +477,7 @@ func (w *qWorld) settleIfBurst() {
 
 // afterSettle: checks that need a quiescent server.
 func (w *qWorld) afterSettle() {
+	w.resolveUncertain()
 	// RDY outside [0, max] must have been refused with a fatal E_INVALID (C03)
 	for _, co := range w.badRdy {
 		if !co.cl.Closed() {
